@@ -751,7 +751,9 @@ class Element(UnicodeMixin):
 
         """
         nilattr = self.getAttribute("nil", ns=Namespace.xsins)
-        return nilattr is not None and (nilattr.getValue().lower() == "true")
+        # xsd:boolean has the two lexical forms "true" and "1" for true.
+        return nilattr is not None and (
+            nilattr.getValue().lower() in ("true", "1"))
 
     def setnil(self, flag=True):
         """
